@@ -1,8 +1,11 @@
 package main
 
 import (
+	"fmt"
 	"strconv"
 	"strings"
+
+	flags "github.com/jessevdk/go-flags"
 )
 
 // Deliberate name relations between an option at the top of a declaration and one in a nested
@@ -96,4 +99,82 @@ func (g *gen) collidePriority(sd *StructDesc) bool {
 		return true
 	}
 	return false
+}
+
+// checkC19Duplicates: one declaration in which two options of different groups share a short name or
+// a (namespaced) long name - top level against a nested group, two sibling groups, two levels deep, a
+// collision that only the namespace creates - and controls in which a namespace keeps the names
+// apart.  The declaration must be refused with ErrDuplicatedFlag when it is built (controls: accepted).
+func checkC19Duplicates(c *Ctx, n int) {
+	r := c.Rng
+	for i := 0; i < n; i++ {
+		ty := func() string { return []string{"str", "bool", "int", "Lstr"}[r.Intn(4)] }
+		name := []string{"dup", "färg", "x", "long-name"}[r.Intn(4)]
+		short := []string{"d", "é", "5", "X"}[r.Intn(4)]
+		opt := func(fname, tag string) FieldDesc {
+			return FieldDesc{Name: fname, Exported: true, Kind: "v", Ty: ty(), Tag: tag}
+		}
+		filler := func(k int) FieldDesc {
+			return opt(fmt.Sprintf("Fill%d", k), quoteTag("long", fmt.Sprintf("filler%d", k)))
+		}
+		group := func(fname, desc, ns string, fields ...FieldDesc) FieldDesc {
+			tag := quoteTag("group", desc)
+			if ns != "" {
+				tag += " " + quoteTag("namespace", ns)
+			}
+			return FieldDesc{Name: fname, Exported: true, Kind: "s", Sub: &StructDesc{Fields: fields}, Tag: tag}
+		}
+		variant := []string{"long: top vs nested", "short: top vs nested", "long: sibling groups", "short: two levels deep", "long: created by the namespace",
+			"control: namespace keeps them apart", "control: distinct names"}[r.Intn(7)]
+		var root *StructDesc
+		wantErr := true
+		switch variant {
+		case "long: top vs nested":
+			root = &StructDesc{Fields: []FieldDesc{filler(1), opt("A", quoteTag("long", name)), group("G", "Inner", "", filler(2), opt("B", quoteTag("long", name)))}}
+		case "short: top vs nested":
+			root = &StructDesc{Fields: []FieldDesc{opt("A", quoteTag("short", short)+" "+quoteTag("long", "a-"+name)), group("G", "Inner", "", opt("B", quoteTag("short", short)), filler(2))}}
+		case "long: sibling groups":
+			root = &StructDesc{Fields: []FieldDesc{group("G1", "First", "", opt("A", quoteTag("long", name))), filler(1), group("G2", "Second", "", filler(2), opt("B", quoteTag("long", name)))}}
+		case "short: two levels deep":
+			root = &StructDesc{Fields: []FieldDesc{opt("A", quoteTag("short", short)), group("G", "Outer", "", filler(1), group("H", "Deep", "", opt("B", quoteTag("short", short)+" "+quoteTag("long", "b-"+name))))}}
+		case "long: created by the namespace":
+			root = &StructDesc{Fields: []FieldDesc{opt("A", quoteTag("long", "ns."+name)), group("G", "Inner", "ns", opt("B", quoteTag("long", name)))}}
+		case "control: namespace keeps them apart":
+			wantErr = false
+			root = &StructDesc{Fields: []FieldDesc{opt("A", quoteTag("long", name)), group("G", "Inner", "ns", opt("B", quoteTag("long", name)))}}
+		default:
+			wantErr = false
+			root = &StructDesc{Fields: []FieldDesc{opt("A", quoteTag("long", name)+" "+quoteTag("short", short)), group("G", "Inner", "", opt("B", quoteTag("long", name+"2")))}}
+		}
+		cs := &Case{Name: "app", NsDelim: ".", EnvNsDelim: "_"}
+		cs.Build = []BuildOp{{Kind: "addgroup", Target: 1, Short: "Application Options", Struct: root}}
+		cs.Ops = []Op{{Kind: "model"}, {Kind: "parse", Args: []string{}}}
+		cs.Description = variant + ": " + describeOps(cs)
+		c.RunCases([]*Case{cs}, func(cr *CaseResult) {
+			c.classifyCase(cr)
+			c.Class("c19/duplicates " + variant)
+			c.Distinct(cs.Description + strings.Join(cr.Lines, "\n"))
+			got := ""
+			for _, l := range cr.Impl {
+				if strings.HasPrefix(l, "R ") && got == "" {
+					got = l
+				}
+				if strings.HasPrefix(l, "HARNESS-PANIC") || strings.HasPrefix(l, "PANIC") {
+					got = l
+				}
+			}
+			ws := strings.Fields(got + " x x x")
+			ok := got == "R ok"
+			want := "accepted"
+			if wantErr {
+				ok = ws[0] == "R" && ws[1] == "flags" && ws[2] == strconv.Itoa(int(flags.ErrDuplicatedFlag))
+				want = "ErrDuplicatedFlag when the declaration is added"
+			}
+			in := map[string]interface{}{"case": cs.Description, "variant": variant}
+			if !ok {
+				in["case_file"] = c.saveCase(cr)
+			}
+			c.Check("options-sharing-a-name-are-refused-at-setup", ok, "C19:duplicates", in, decodeLine(got), want)
+		})
+	}
 }
